@@ -7,46 +7,61 @@ import treeutil as tu
 from common import time_limit, hex6, Timeout
 
 ID = "C07"
-GEN_DEPENDS = []
+GEN_DEPENDS = ["C07Mid"]
 RULE = ("random rose trees (1-10 leaves quick, up to 30 thorough; polytomies, unary nodes and unary seeds, fixed families, leaves "
         "without taxa, internal taxa) with tie-rich edge lengths (all None, unit, small integers, 0/1, ultrametric, dyadic, mixed None) "
         "x operation (reseed_at, reroot_at_node, reroot_at_edge, reroot_at_midpoint, to_outgroup_position, randomly_reorient, "
-        "randomly_rotate, ladderize, reorder) x every kind of target (seed, internal, leaf, child of the seed) x initial rooting "
+        "randomly_rotate, ladderize, reorder, and the two clean-up mechanisms on their own: suppress_unifurcations, "
+        "collapse_basal_bifurcation) x every kind of target (seed, internal, leaf, child of the seed) x initial rooting "
         "(rooted/unrooted, sometimes undefined) x update_bipartitions x suppress_unifurcations x collapse_unrooted_basal_bifurcation; "
+        "for midpoint rooting the walk's decision (existing node | inserted node with its two sub-edge lengths) is recorded at the call "
+        "of reseed_at and compared with the model's midwhere as an intermediate observable; "
         "thorough adds every shape <= 6 leaves x every target node/edge/outgroup x flags x four tie-rich length patterns. "
         "Non-trivial = the operation changes the order-revealing rendering of the tree or its rooting flag")
 MODELLED_NOT_VERIFIED = [
     "C07: reseed_at/Edge.invert, reroot_at_node/edge/midpoint, to_outgroup_position, collapse_basal_bifurcation, suppress_unifurcations, "
     "ladderize, reorder, randomly_rotate/reorient are hand-modelled (lean/DendroModel/Model/C07.lean) and tied to the code by comparing the "
-    "order-revealing rendering (ids, taxa, exact lengths, child order) and the rooting flag after every generated operation",
+    "order-revealing rendering (ids, taxa, exact lengths, child order) and the rooting flag after every generated operation; "
+    "regenerated from the source on every run and proved equal to the model's (Gen/C07Mid.lean + gen_*_bridge theorems) are only the "
+    "closed-form kernels of reroot_at_midpoint (_edge_len, the half distance, the n1/n2 choice, one turn of the walk, the two sub-edge "
+    "lengths, the literal flags of its reseed_at calls, is_rooted = True) and the length1/length2 assignment of reroot_at_edge; the "
+    "loops and the node surgery around them are hand-modelled",
     "C07: which maximal pair PhylogeneticDistanceMatrix.max_pairwise_distance_taxa returns (set iteration order) is an input of the model "
     "(recorded from the implementation; if not recordable every maximal pair is tried); the oracle checks maximality independently",
     "C07: RNG draws of randomly_reorient/randomly_rotate are recorded from the implementation (scripted rng) and replayed into the model",
     "C07: floating point is not modelled; all generated lengths are dyadic so that every sum, difference and halving is exact",
+    "C07: LenWF (non-zero denominators) and distinct node ids are hypotheses of the theorems, not derived from parseTree in Props/C07.lean",
 ]
 EXPLANATION = ("Theorems (Props/C07.lean, about the definitions drv_c07 runs; Keeps t r = same leaf ids, same total length, same length of "
                "every leaf-to-leaf path, exact rationals, None = 0). Proved for every tree with distinct node ids, a seed with >= 2 children and "
                "well-formed fractions, for EVERY flag setting (defaults included): reseed_invariant_full / reroot_at_node_invariant_full "
                "(internal target), to_outgroup_invariant (any non-seed outgroup), reroot_at_edge_invariant (any length1 + length2 = edge "
-               "length), ladderize_invariant / reorder_invariant / rotate_invariant (path lengths under child permutation: Theory/C07Perm "
-               "distL_perm), reorient_invariant (both branches + rotation), reroot_at_midpoint_invariant (both branches; the node the walk "
-               "returns is proved internal). pathLen_defined: the path length of two distinct leaves is a number, so the paths clause is "
-               "not none = none. LenWF and distinct ids are hypotheses (not derived from parseTree in this file). Clause (c): "
-               "reroot_at_edge_position_partial (suppress off only: root = inserted node, children = head at length2, then tail at length1, "
-               "any two lengths; the root-distance form under suppression is oracle-only). Clause (d): outgroup_first (suppress off, node identity) and outgroup_first_leafset_partial (both suppress settings, leaf-set form; "
-               "the outgroup child is identified in the re-seeded tree, not traced back to t). Clause (e): flag theorems for reseed, outgroup, reorient (content) and the "
-               "hard ops (definitional). Structure: invert_is_chain, reseed_root_is_target, reseed_at_root_is_target, reseed_root_shape. "
-               "Unrooted splits: reseed_keeps_usplits (whole chain + basal collapse + suppression, every flag setting) and "
-               "reroot_at_node_keeps_usplits, for trees whose leaves carry distinct taxa. Clause (c) under the default suppression: "
-               "reroot_at_edge_root_distances (leaves below the head at length2 + depth, all others at length1 + distance from the old tail; "
-               "suppression never moves the root; any two lengths). midpoint_in_edge_root_distances_partial (in-edge branch: leaves below the head at x + depth, x from the walk). Still _partial: midpoint_walk_spec_partial (walk stops exactly at half the distance, tail node on equality; equidistance of "
-               "rerootAtMidpoint not assembled, maximality of the pair is an input); inversion_step_keeps_unrooted_splits_partial (the single step behind "
-               "reseed_keeps_usplits). Not proved, oracle only: midpoint equidistance, split sets of outgroup/edge/midpoint/permutation "
-               "operations, leaf targets, unary seeds.")
+               "length), ladderize_invariant / reorder_invariant / rotate_invariant (path lengths under child permutation), "
+               "reorient_invariant (both branches + rotation), reroot_at_midpoint_invariant (both branches), "
+               "suppress_unifurcations_invariant and collapse_basal_invariant (the clean-up mechanisms on their own). pathLen_defined: the "
+               "path length of two distinct leaves is a number. Clause (b), now full: midpoint_equidistant - after rerootAtMidpoint was handed the "
+               "leaves (a, b), BOTH are at exactly half their path length from the new root, midpoint inside an edge or exactly on a node, any "
+               "ties, with and without suppression, no sign condition (rootPath/dropCommon/upList/midWalk are tied to Path.dist: mrca_spec, "
+               "rootPath_down, rootPath_suffix, upList_split); midpoint_most_distant_pair_equidistant - if (a, b) is a pair of most distant leaves "
+               "it still is afterwards and both are at half the maximal distance (that the pair IS maximal is an input: the pair is recorded from "
+               "the implementation and the oracle checks maximality); midpoint_walk_spec (complete specification of the walk); midpoint_never_fails / "
+               "reroot_at_midpoint_defined - for two different leaves the walk never gives up (the library's assert cannot fire, the model never "
+               "answers AssertionError), any lengths. Clause (c): "
+               "reroot_at_edge_root_distances (default suppression included: leaves below the head at length2 + depth, all others at length1 + "
+               "distance from the old tail; any two lengths) and reroot_at_edge_position_partial (_partial: shape of the root for suppress off "
+               "only). Clause (d): outgroup_first (suppress off, node identity) and outgroup_first_leafset (both suppress settings, every flag: the "
+               "first root child spans exactly the leaves of the node with id og of the original tree). Clause (e): flag theorems for "
+               "reseed, outgroup, reorient (content) and the hard ops (definitional). Structure: invert_is_chain, reseed_root_is_target, "
+               "reseed_at_root_is_target, reseed_root_shape. Unrooted splits: reseed_keeps_usplits (whole chain + basal collapse + suppression, "
+               "every flag setting), reroot_at_node_keeps_usplits, inversion_step_keeps_unrooted_splits, for trees whose leaves carry distinct "
+               "taxa. Tie A: gen_edge_len_bridge, gen_plen0_bridge, gen_order_bridge, gen_walk_bridge, gen_split_lens_bridge, "
+               "gen_midpoint_flags_bridge, gen_reroot_edge_bridge - the kernels regenerated from the current source equal the model's. "
+               "Not proved, oracle only: split sets of outgroup/edge/midpoint/permutation operations, leaf targets, unary seeds.")
 
-SOFT = {"reseed", "outgroup", "reorient", "rotate", "ladderize", "reorder"}
+SOFT = {"reseed", "outgroup", "reorient", "rotate", "ladderize", "reorder", "suppress"}
 HARD = {"rerootnode", "rerootedge", "midpoint"}
-OPS = ["reseed", "rerootnode", "rerootedge", "midpoint", "outgroup", "reorient", "rotate", "ladderize", "reorder"]
+# "suppress" / "collapse": the two clean-up mechanisms called on their own (Tree.suppress_unifurcations, Tree.collapse_basal_bifurcation)
+OPS = ["reseed", "rerootnode", "rerootedge", "midpoint", "outgroup", "reorient", "rotate", "ladderize", "reorder", "suppress", "collapse"]
 FLAGS = {"R": True, "U": False, "N": None}
 FLAG_OF = {True: "R", False: "U", None: "N"}
 
@@ -377,6 +392,8 @@ def gen_case(rng, op, max_leaves):
     elif op == "reorder":
         a["asc"] = rng.random() < 0.5
         a["labels"] = gen_labels(rng, nbits)
+    elif op == "collapse":
+        a["setu"] = rng.random() < 0.6
     if "tgt" in a and a["tgt"] is None:
         return None
     return {"op": op, "tree": toks, "flag": flag, "args": a, "nbits": nbits}
@@ -439,11 +456,28 @@ def run_impl(dendropy, case, tree, ids):
             rec["pair"] = r
             return r
         cls.max_pairwise_distance_taxa = wrapped
+        # intermediate observable: what the walk decided, seen at the moment reroot_at_midpoint hands it to reseed_at -
+        # an existing node (midpoint exactly on it) or a freshly inserted one (then: head of the split edge, the two sub-edge lengths)
+        tcls = type(tree)
+        orig_reseed = tcls.reseed_at
+
+        def reseed_spy(self, new_seed_node, *args, **kw):
+            if "where" not in rec:
+                i = ids.of(new_seed_node)
+                if i is not None:
+                    rec["where"] = "node %d" % i
+                else:
+                    ch = list(new_seed_node._child_nodes)
+                    h = ids.of(ch[0]) if len(ch) == 1 else None
+                    rec["where"] = "edge %s %s %s" % (h, tu.frac(new_seed_node.edge.length), tu.frac(ch[0].edge.length if ch else None))
+            return orig_reseed(self, new_seed_node, *args, **kw)
+        tcls.reseed_at = reseed_spy
         try:
             tree.reroot_at_midpoint(update_bipartitions=upd, suppress_unifurcations=a["suppress"],
                                     collapse_unrooted_basal_bifurcation=a["collapse"])
         finally:
             cls.max_pairwise_distance_taxa = orig
+            tcls.reseed_at = orig_reseed
     elif op == "outgroup":
         tree.to_outgroup_position(ids.node(a["og"]), update_bipartitions=upd, suppress_unifurcations=a["suppress"])
     elif op == "reorient":
@@ -458,6 +492,10 @@ def run_impl(dendropy, case, tree, ids):
         tree.ladderize(ascending=a["asc"])
     elif op == "reorder":
         tree.reorder(ascending=a["asc"])
+    elif op == "suppress":
+        tree.suppress_unifurcations()
+    elif op == "collapse":
+        tree.collapse_basal_bifurcation(set_as_unrooted_tree=a["setu"])
     else:
         raise ValueError(op)
     return rec
@@ -467,6 +505,10 @@ def run_impl(dendropy, case, tree, ids):
 def flag_clause(case, flag_after):
     """(e) soft operations leave the rooting flag as it was, hard ones set it"""
     f0 = FLAGS[case["flag"]]
+    if case["op"] == "collapse":
+        # the mechanism on its own: it is documented to mark the tree unrooted when asked to (and only when it dissolves a node)
+        ok = flag_after is f0 or (case["args"]["setu"] and flag_after is False)
+        return [] if ok else [("rooting_flag", "collapse_basal_bifurcation changed is_rooted from %r to %r" % (f0, flag_after))]
     if case["op"] in HARD:
         if flag_after is not True:
             return [("rooting_flag", "hard re-rooting left is_rooted = %r" % (flag_after,))]
@@ -673,6 +715,10 @@ def model_lines(case, before, rec, ids, n):
         return ["ladderize %s %s %s" % (f, b(a["asc"]), tt)]
     if op == "reorder":
         return ["reorder %s %s %s" % (f, b(a["asc"]), " ".join(reorder_tokens(case)))]
+    if op == "suppress":
+        return ["suppress %s %s" % (f, tt)]
+    if op == "collapse":
+        return ["collapse %s %s %s" % (f, b(a["setu"]), tt)]
     raise ValueError(op)
 
 
@@ -716,6 +762,13 @@ def one_case(ctx, dendropy, case, pending, kind=None):
     lines = model_lines(case, before, rec, ids, n)
     if lines:
         pending.append((lines, case, got))
+        if case["op"] == "midpoint" and rec.get("where"):
+            # the same pair(s), asked for the walk's answer only: `midwhere a b tree`
+            wl = []
+            for ln in lines:
+                w = ln.split(" ")
+                wl.append("midwhere %s %s %s" % (w[3], w[4], " ".join(w[6:])))
+            pending.append((wl, dict(case, observable="where the walk stops (node | edge head tail-length head-length)"), rec["where"]))
 
 
 def flush(ctx, pending):
@@ -789,6 +842,9 @@ def exhaustive(ctx, dendropy, pending):
                 for _ in range(len(nodes)):
                     cases.append(dict(base, op="reorient", args={"rseed": rng.randrange(1 << 30), "upd": rng.random() < 0.3}))
                 cases.append(dict(base, op="rotate", args={"rseed": rng.randrange(1 << 30)}))
+                cases.append(dict(base, op="suppress", args={}))
+                cases.append(dict(base, op="collapse", args={"setu": True}))
+                cases.append(dict(base, op="collapse", args={"setu": False}))
                 for c in cases:
                     one_case(ctx, dendropy, c, pending, kind="exh-" + c["op"])
                     count += 1
@@ -802,18 +858,18 @@ def exhaustive(ctx, dendropy, pending):
 
 
 WEIGHTS = [("reseed", 22), ("rerootnode", 10), ("rerootedge", 14), ("midpoint", 20), ("outgroup", 12), ("reorient", 8),
-           ("rotate", 4), ("ladderize", 5), ("reorder", 5)]
+           ("rotate", 4), ("ladderize", 5), ("reorder", 5), ("suppress", 4), ("collapse", 4)]
 
 
 def run(ctx):
     dendropy = __import__("dendropy")
     rng = ctx.rng
-    ctx.set_budget(45, 780)
+    ctx.set_budget(45, 700)
     pending = []
     ncases = ctx.pick(16000, 200000)
     max_leaves = ctx.pick(10, 30)
     ops = [o for o, w in WEIGHTS for _ in range(w)]
-    random_budget = ctx.pick(30, 240)
+    random_budget = ctx.pick(25, 240)
     import time
     t0 = time.time()
     for k in range(ncases):
@@ -830,6 +886,35 @@ def run(ctx):
     flush(ctx, pending)
     if ctx.tier == "thorough":
         exhaustive(ctx, dendropy, pending)
+
+
+def search(ctx, broken):
+    """the regenerated kernels (Gen/C07Mid.lean), a bridge theorem or the correspondence broke: look for an input on which the real
+    reroot_at_midpoint / reroot_at_edge contradicts the statement - every shape <= 5 leaves x tie-rich lengths x rooting x suppression"""
+    dendropy = __import__("dendropy")
+    rng = ctx.rng
+    pending = []
+    for nl in range(2, 6):
+        for sh in tu.all_shapes(nl):
+            for pat in ("unit", "ultra", "zero1", "int"):
+                toks, nbits = gen_tree(rng, 0, all_taxa=True, pattern=pat, shape=sh)
+                snap = snap_from_tokens(toks)
+                for flag in ("U", "R"):
+                    base = {"tree": toks, "flag": flag, "nbits": nbits}
+                    for sup in (True, False):
+                        one_case(ctx, dendropy, dict(base, op="midpoint", args={"suppress": sup, "collapse": True, "upd": False}),
+                                 pending, kind="search-midpoint")
+                        for v in snap.nodes():
+                            if v == snap.root:
+                                continue
+                            L = snap.length[v]
+                            one_case(ctx, dendropy, dict(base, op="rerootedge", args={"head": v, "suppress": sup, "upd": False,
+                                                                                      "l1": tu.frac(L / 4), "l2": tu.frac(L - L / 4)}),
+                                     pending, kind="search-edge")
+                if ctx.failures:
+                    flush(ctx, pending)
+                    return
+    flush(ctx, pending)
 
 
 def replay(ctx, rec):
